@@ -564,6 +564,8 @@ class GetOutputs(_L2):
     def _push_effect(self, v, A):
         """inner push loop: this iteration added exactly one buffer entry for its destination, due at the
         output time plus the connection's time shift, attributed to this simulator and source entity"""
+        if TOP[0] is not self:
+            return True     # get_outputs inlined into the whole-function cross-check: the data clauses are GetOutputs' own
         M, h = self._M, self.cur()
         a, me = M.alg, self._me
         g = self._p.ghost
